@@ -223,7 +223,7 @@ def graph_features(files) -> set:
     return feats
 
 
-def model_line(case, tmp: Path, includes=True) -> str:
+def model_line(case, tmp: Path, includes=True, comments=True) -> str:
     parts = []
     for f in case["files"]:
         p = str(tmp / f["rel"])
@@ -234,14 +234,14 @@ def model_line(case, tmp: Path, includes=True) -> str:
             parts.append(f"{wire.enc_str(p)} native {wire.enc_str(f.get('text') or render(f))}")
     fs = f"l{len(parts)} " + " ".join(parts)
     root = str(tmp / case["files"][0]["rel"])
-    return f"read_plain {fs} {wire.enc_str(root)} {wire.enc_bool(includes)} b1 i-1"
+    return f"read_plain {fs} {wire.enc_str(root)} {wire.enc_bool(includes)} {wire.enc_bool(comments)} i-1"
 
 
-def impl_line(case, tmp: Path, includes=True) -> str:
+def impl_line(case, tmp: Path, includes=True, comments=True) -> str:
     dictIO = native.dictio()
     native.set_counter(-1)
     try:
-        r = dictIO.DictReader.read(tmp / case["files"][0]["rel"], includes=includes)
+        r = dictIO.DictReader.read(tmp / case["files"][0]["rel"], includes=includes, comments=comments)
     except (ValueError, TypeError, IndexError, KeyError, RecursionError) as e:
         return f"raise {native.ERRCODE[type(e).__name__]}"
     return "ok " + c07.enc_sdict_obj(r) + f" i{native.counter_value()}"
@@ -287,9 +287,9 @@ def run(ctx):
                 if p.is_file():
                     p.unlink()
             materialise(c, tmp)
-            for inc in (True, False):
-                mlines.append(model_line(c, tmp, inc))
-                ilines.append(impl_line(c, tmp, inc))
+            for inc, com in ((True, True), (False, True), (True, False)):
+                mlines.append(model_line(c, tmp, inc, com))
+                ilines.append(impl_line(c, tmp, inc, com))
                 ccases.append(c)
         mout = wire.run_model_sharded(mlines)
 
